@@ -136,10 +136,12 @@ func genValue(r *rng.R, kind string, big bool) *trace.Value {
 			n = rng.Pick(r, []int{0, 1, 40, 100, 200, 300})
 		}
 		b := make([]byte, n)
-		for i := range b {
+		for i := 0; i < len(b); i++ {
 			b[i] = byte(0x20 + r.Intn(0x5F))
-			if r.Chance(0.05) {
-				b[i] = byte(0xC3) // UTF-8 lead byte
+			if r.Chance(0.05) && i+1 < len(b) {
+				// a two-byte UTF-8 sequence (traces are JSON: strings must be valid UTF-8)
+				b[i], b[i+1] = 0xC3, byte(0xA0+r.Intn(0x1F))
+				i++
 			}
 		}
 		v.S = string(b)
